@@ -1,10 +1,245 @@
 import Pun.Model.UN
 import Mathlib.Tactic.Ring
+import Mathlib.Tactic.FieldSimp
+import Mathlib.Tactic.Linarith
+import Mathlib.Algebra.Order.Field.Basic
+/-!
+# C15 — UncertainNumber arithmetic equals construct arithmetic; units obey unit algebra
+
+* unit algebra laws of `Dim` and of pint's quantity operators `qOp`;
+* `number_rule_*` : what `pass_down_units` does with a bare number is the rule of the statement;
+* `un_op_spec` : for EVERY construct algebra `alg`, every operator and every operand pair of
+  the quantifier, the class's dispatch (`pyBin`: forward method, reflected methods as coded,
+  `bin_ops`, `pass_down_units`) returns exactly the specified table `specBin`
+  (same operation on the converted constructs, unit from `unitSpec`), errors included;
+* `PBn.rsub_mirror`, `neg_eq_zero_sub`, `rsub_pointwise`, `rdiv_pointwise_*` : on quantile lists,
+  `c − U = −(U − c)`, `−U = 0 − U`, and `c − U`, `c / U` are pointwise `c − x`, `c / x` with the
+  bounds exchanged and the probability levels reversed (zero-straddling divisor rejected).
+-/
 set_option linter.unusedSimpArgs false
 set_option linter.unusedVariables false
 namespace Pun.UN
 
-theorem Dim.mul_comm' (a b : Dim) : a.mul b = b.mul a := by
-  cases a; cases b; simp [Dim.mul, Rat.add_comm]
+/-! ## unit algebra -/
+namespace Dim
+@[ext] theorem ext' {a b : Dim} (h1 : a.m = b.m) (h2 : a.s = b.s) (h3 : a.kg = b.kg) : a = b := by
+  cases a; cases b; simp_all
 
+theorem mul_comm (a b : Dim) : a.mul b = b.mul a := by
+  apply ext' <;> simp only [mul] <;> ring
+theorem mul_assoc (a b c : Dim) : (a.mul b).mul c = a.mul (b.mul c) := by
+  apply ext' <;> simp only [mul] <;> ring
+theorem mul_one (a : Dim) : a.mul one = a := by
+  apply ext' <;> simp only [mul, one] <;> ring
+theorem div_mul_cancel (a b : Dim) : (a.div b).mul b = a := by
+  apply ext' <;> simp only [mul, div] <;> ring
+theorem mul_div_cancel (a b : Dim) : (a.mul b).div b = a := by
+  apply ext' <;> simp only [mul, div] <;> ring
+theorem div_self (a : Dim) : a.div a = one := by
+  apply ext' <;> simp only [div, one] <;> ring
+theorem div_eq_mul_inv (a b : Dim) : a.div b = a.mul (one.div b) := by
+  apply ext' <;> simp only [mul, div, one] <;> ring
+theorem pow_add (a : Dim) (j k : Rat) : a.pow (j + k) = (a.pow j).mul (a.pow k) := by
+  apply ext' <;> simp only [mul, pow] <;> ring
+theorem pow_mul (a : Dim) (j k : Rat) : a.pow (j * k) = (a.pow j).pow k := by
+  apply ext' <;> simp only [pow] <;> ring
+theorem pow_one (a : Dim) : a.pow 1 = a := by
+  apply ext' <;> simp only [pow] <;> ring
+theorem pow_zero (a : Dim) : a.pow 0 = one := by
+  apply ext' <;> simp only [pow, one] <;> ring
+theorem pow_two (a : Dim) : a.pow 2 = a.mul a := by
+  apply ext' <;> simp only [pow, mul] <;> ring
+theorem pow_neg_one (a : Dim) : a.pow (-1) = one.div a := by
+  apply ext' <;> simp only [pow, div, one] <;> ring
+theorem one_pow (k : Rat) : one.pow k = one := by
+  apply ext' <;> simp only [pow, one] <;> ring
+theorem mul_pow (a b : Dim) (k : Rat) : (a.mul b).pow k = (a.pow k).mul (b.pow k) := by
+  apply ext' <;> simp only [pow, mul] <;> ring
+end Dim
+
+/-- sums and differences of quantities exist exactly for equal dimensions, and keep it -/
+theorem add_requires_eq (a b d : Dim) (k : Rat) : qOp .add a b k = .ok d ↔ (a = b ∧ d = a) := by
+  unfold qOp
+  by_cases h : a = b
+  · subst h; simp [eq_comm]
+  · simp [h]
+theorem sub_requires_eq (a b d : Dim) (k : Rat) : qOp .sub a b k = .ok d ↔ (a = b ∧ d = a) := by
+  unfold qOp
+  by_cases h : a = b
+  · subst h; simp [eq_comm]
+  · simp [h]
+/-- adding quantities of different dimension is an error -/
+theorem add_incompatible (a b : Dim) (k : Rat) (h : a ≠ b) :
+    qOp .add a b k = .error .dimensionality ∧ qOp .sub a b k = .error .dimensionality := by
+  simp [qOp, h]
+example : qOp .add ⟨1, 0, 0⟩ ⟨0, 1, 0⟩ 0 = .error .dimensionality := by decide +kernel
+example : qOp .add ⟨1, -1, 0⟩ ⟨1, -1, 0⟩ 0 = .ok ⟨1, -1, 0⟩ := by decide +kernel
+
+/-- an exponent that carries a dimension is an error -/
+theorem pow_requires_dimensionless (a b : Dim) (k : Rat) (h : b ≠ Dim.one) :
+    qOp .pow a b k = .error .dimensionality := by
+  simp [qOp, h]
+
+variable {C : Type}
+
+/-! ## the number rule (`pass_down_units`, number branch) -/
+theorem number_rule_forward (u : UNv C) (c : Rat) (op : Op) :
+    passDownUnits u (.num c) op false = unitSpec op (some u.dim) none c := by
+  cases op <;> simp [passDownUnits, numDim, qOp, unitSpec, Dim.mul_one]
+  · apply Dim.ext' <;> simp [Dim.div, Dim.one]
+
+theorem number_rule_reflected (u : UNv C) (c : Rat) (op : Op) :
+    passDownUnits u (.num c) op true = unitSpec op none (some u.dim) u.nom := by
+  cases op <;> simp [passDownUnits, numDim, qOp, unitSpec, Dim.one_pow]
+  · rw [Dim.mul_comm, Dim.mul_one]
+
+/-- spelled out: `U * c`, `U / c` keep the unit; `U ± c` keep it; `U ** c` scales the exponents;
+`c / U` inverts it; `c ** U` needs a dimensionless `U` -/
+theorem number_rule_values (u : UNv C) (c : Rat) :
+    passDownUnits u (.num c) .mul false = .ok u.dim ∧
+    passDownUnits u (.num c) .div false = .ok u.dim ∧
+    passDownUnits u (.num c) .add false = .ok u.dim ∧
+    passDownUnits u (.num c) .sub false = .ok u.dim ∧
+    passDownUnits u (.num c) .sub true = .ok u.dim ∧
+    passDownUnits u (.num c) .pow false = .ok (u.dim.pow c) ∧
+    passDownUnits u (.num c) .div true = .ok (Dim.one.div u.dim) ∧
+    (u.dim ≠ Dim.one → passDownUnits u (.num c) .pow true = .error .dimensionality) ∧
+    (u.dim = Dim.one → passDownUnits u (.num c) .pow true = .ok Dim.one) := by
+  simp only [number_rule_forward, number_rule_reflected, unitSpec, if_true, true_and]
+  constructor
+  · intro h; simp [h]
+  · intro h; simp [h]
+
+/-! ## the class's table is the specified table -/
+
+/-- operand pairs of the quantifier: an uncertain number on the left with anything on the
+right, or a plain number on the left of an uncertain number -/
+def InScope : Opd C → Opd C → Prop
+  | .un _, _ => True
+  | .num _, .un _ => True
+  | _, _ => False
+
+/-- **C15**: the operators of the class, as coded (forward methods, reflected methods by
+delegation / `reflected=True`, `bin_ops`, `pass_down_units`), compute exactly the specified
+table, for every construct algebra, operator, essence, unit and number; errors included. -/
+theorem un_op_spec (alg : CAlg C) (op : Op) (l r : Opd C) (h : InScope l r) :
+    pyBin alg op l r = some (specBin alg op l r) := by
+  cases l with
+  | un u =>
+    cases r with
+    | un v =>
+      simp only [pyBin, dunder, binOps, specBin, consSpec, passDownUnits, dimOf, expoOf]
+      cases op <;> simp [qOp, unitSpec]
+    | num c =>
+      have hu := number_rule_forward u c op
+      simp [pyBin, dunder, binOps, specBin, consSpec, dimOf, expoOf, hu]
+    | cons => simp [pyBin, dunder, binOps, specBin, consSpec]; rfl
+    | other => simp [pyBin, dunder, binOps, specBin, consSpec]; rfl
+  | num c =>
+    cases r with
+    | un u =>
+      have hf := fun o => number_rule_forward u c o
+      have hr := fun o => number_rule_reflected u c o
+      cases op
+      · -- c + U  :=  U + c
+        simp only [pyBin, rdunder, dunder, binOps, specBin, consSpec, dimOf, expoOf, hf]
+        simp [unitSpec]
+      · simp only [pyBin, rdunder, binOps, specBin, consSpec, dimOf, expoOf, hr]
+        cases he : u.ess <;> simp
+      · simp only [pyBin, rdunder, dunder, binOps, specBin, consSpec, dimOf, expoOf, hf]
+        simp [unitSpec]
+      · simp only [pyBin, rdunder, binOps, specBin, consSpec, dimOf, expoOf, hr]
+        cases he : u.ess <;> simp
+      · simp only [pyBin, rdunder, rpow, specBin, consSpec, dimOf, expoOf, hr]
+    | num _ => exact absurd h (by simp [InScope])
+    | cons => exact absurd h (by simp [InScope])
+    | other => exact absurd h (by simp [InScope])
+  | cons => exact absurd h (by simp [InScope])
+  | other => exact absurd h (by simp [InScope])
+
+example : InScope (C := Term) (.num 2) (.un ⟨.interval, .B, 3/2, ⟨1, 0, 0⟩⟩) := trivial
+example : pyBin termAlg .div (.num 2) (.un ⟨.dss, .B, 3/2, ⟨1, 0, 0⟩⟩)
+    = some (.ok ⟨.nc .div 2 (.conv .B), Dim.one.div ⟨1, 0, 0⟩⟩) := rfl
+
+/-- unary minus: the negated construct, same unit -/
+theorem neg_spec (alg : CAlg C) (u : UNv C) :
+    pyNeg alg u = (alg.neg u.ess u.cons).map (fun c => ⟨c, u.dim⟩) := by
+  unfold pyNeg
+  cases alg.neg u.ess u.cons <;> rfl
+
+/-- consequences read off the table: the result of `U op V` has the product / quotient / common
+dimension, whatever the constructs are -/
+theorem unit_of_product (alg : CAlg C) (u v : UNv C) (x : Res C)
+    (h : pyBin alg .mul (.un u) (.un v) = some (.ok x)) : x.dim = u.dim.mul v.dim := by
+  simp only [pyBin, dunder, binOps, passDownUnits, qOp] at h
+  cases hc : alg.binCC .mul (alg.conv u.ess u.cons) (alg.conv v.ess v.cons) <;> simp_all [bind, Except.bind, pure, Except.pure]
+  rw [← h]
+
+theorem unit_of_quotient (alg : CAlg C) (u v : UNv C) (x : Res C)
+    (h : pyBin alg .div (.un u) (.un v) = some (.ok x)) : x.dim = u.dim.div v.dim := by
+  simp only [pyBin, dunder, binOps, passDownUnits, qOp] at h
+  cases hc : alg.binCC .div (alg.conv u.ess u.cons) (alg.conv v.ess v.cons) <;> simp_all [bind, Except.bind, pure, Except.pure]
+  rw [← h]
+
+/-- adding uncertain numbers of different dimension is an error whenever the constructs
+themselves can be added -/
+theorem add_incompatible_is_error (alg : CAlg C) (u v : UNv C) (hd : u.dim ≠ v.dim) (x : Res C) :
+    pyBin alg .add (.un u) (.un v) ≠ some (.ok x) ∧ pyBin alg .sub (.un u) (.un v) ≠ some (.ok x) := by
+  constructor <;>
+  · simp only [pyBin, dunder, binOps, passDownUnits, qOp, hd, if_false]
+    cases alg.binCC _ (alg.conv u.ess u.cons) (alg.conv v.ess v.cons) <;>
+      simp [bind, Except.bind, pure, Except.pure]
+
+/-! ## mirror images on quantile lists -/
+namespace PBn
+
+theorem rsub_mirror (c : Rat) (p : PBn) : rsubN c p = neg (subN p c) := by
+  simp only [rsubN, neg, addN, subN, List.map_reverse, List.map_map]
+  congr 2 <;> (apply List.map_congr_left; intro x _; simp only [Function.comp]; ring)
+
+/-- `c − U` pointwise: `c − x`, bounds exchanged, probability levels reversed -/
+theorem rsub_pointwise (c : Rat) (p : PBn) :
+    rsubN c p = ⟨(p.right.map (c - ·)).reverse, (p.left.map (c - ·)).reverse⟩ := by
+  simp only [rsubN, neg, addN, List.map_reverse, List.map_map]
+  congr 2 <;> (apply List.map_congr_left; intro x _; simp only [Function.comp]; ring)
+
+theorem neg_eq_zero_sub (p : PBn) : neg p = rsubN 0 p := by
+  rw [rsub_pointwise]
+  simp only [neg]
+  congr 2 <;> (apply List.map_congr_left; intro x _; ring)
+
+theorem neg_neg (p : PBn) : neg (neg p) = p := by
+  cases p
+  simp [neg, List.map_reverse, List.map_map, Function.comp_def]
+
+/-- `U − c = U + (−c)` and `−(c − U) = U − c` -/
+theorem sub_eq_add_neg (p : PBn) (c : Rat) : subN p c = addN p (-c) := by
+  simp only [subN, addN]
+  congr 1 <;> (apply List.map_congr_left; intro x _; ring)
+theorem neg_rsub (c : Rat) (p : PBn) : neg (rsubN c p) = subN p c := by
+  rw [rsub_mirror, neg_neg]
+
+/-- `c / U` pointwise for a positive number: `c / x`, bounds exchanged, levels reversed -/
+theorem rdiv_pointwise_nonneg (c : Rat) (p : PBn) (hc : 0 ≤ c) (hp : p.nonzero = true) :
+    rdivN c p = some ⟨(p.right.map (c / ·)).reverse, (p.left.map (c / ·)).reverse⟩ := by
+  simp only [rdivN, hp, if_true, mulN, hc, recip, List.map_reverse, List.map_map]
+  congr 3 <;> (apply List.map_congr_left; intro x _; simp only [Function.comp]; ring)
+
+/-- for a negative number the two exchanges cancel -/
+theorem rdiv_pointwise_neg (c : Rat) (p : PBn) (hc : c < 0) (hp : p.nonzero = true) :
+    rdivN c p = some ⟨p.left.map (c / ·), p.right.map (c / ·)⟩ := by
+  have : ¬ (0 ≤ c) := not_le.mpr hc
+  simp only [rdivN, hp, if_true, mulN, this, if_false, recip, List.map_reverse, List.map_map,
+    List.reverse_reverse]
+  congr 3 <;> (funext x; simp only [Function.comp]; ring)
+
+/-- a zero-straddling divisor is rejected -/
+theorem rdiv_straddle (c : Rat) (p : PBn) (hp : p.nonzero = false) : rdivN c p = none := by
+  simp [rdivN, hp]
+
+example : rdivN 2 ⟨[1, 2], [2, 4]⟩ = some ⟨[1/2, 1], [1, 2]⟩ := by decide +kernel
+example : rsubN 5 ⟨[1, 2], [2, 4]⟩ = ⟨[1, 3], [3, 4]⟩ := by decide +kernel
+example : (⟨[1, 2], [2, 4]⟩ : PBn).nonzero = true := by decide +kernel
+
+end PBn
 end Pun.UN
